@@ -38,8 +38,13 @@ def single_defs(fn: ast.FunctionDef) -> Dict[str, ast.expr]:
         if isinstance(t, ast.Name):
             bind(t.id, value)
         elif isinstance(t, (ast.Tuple, ast.List)):
-            for e in t.elts:
-                targets(e, None)
+            # a, b = (e1, e2): each name is defined by its own element
+            if isinstance(value, (ast.Tuple, ast.List)) and len(value.elts) == len(t.elts) and not any(isinstance(e, ast.Starred) for e in list(t.elts) + list(value.elts)):
+                for e, v in zip(t.elts, value.elts):
+                    targets(e, v)
+            else:
+                for e in t.elts:
+                    targets(e, None)
         elif isinstance(t, ast.Starred):
             targets(t.value, None)
 
